@@ -576,6 +576,9 @@ enum Script {
     /// A broker that ignores the client's Receive Maximum: `n` inbound QoS 2 publishes with distinct
     /// identifiers and no PUBREL (the client's table holds 8), then the PUBRELs.
     InboundQos2Overflow { n: u16 },
+    /// The broker assigns a client identifier of `len` bytes (the client holds at most 64); then a
+    /// reconnect, whose CONNECT must carry the assigned identifier if it was accepted.
+    AssignedClientId { len: usize },
 }
 
 fn scripted() -> Vec<Script> {
@@ -601,6 +604,9 @@ fn scripted() -> Vec<Script> {
     v.push(Script::EightInRelease { rm8: false });
     for n in [7u16, 8, 9, 10] {
         v.push(Script::InboundQos2Overflow { n });
+    }
+    for len in [0usize, 1, 63, 64, 65] {
+        v.push(Script::AssignedClientId { len });
     }
     for (q0_len, big_will) in [(130, false), (0, true), (200, true), (20000, false), (120, false), (300, false), (17000, true)] {
         v.push(Script::ScratchBehindRetained { q0_len, big_will });
@@ -737,6 +743,19 @@ fn run_script(rng: super::Rng, script: &Script) -> (String, Drv) {
             }
             settle(&mut d);
             format!("script=eight-in-release rm8={}", *rm8 as u8)
+        }
+        Script::AssignedClientId { len } => {
+            let id = "i".repeat(*len);
+            let ok = d.connect(&ConnSpec { sp: Sp::Fixed(false), rc: 0, props: vec![crate::parse::PropSpec::Str(0x12, id)] });
+            if ok {
+                d.x(&PubLine::simple(1, "a", b"1").text());
+                d.go();
+            }
+            lose(&mut d, "drop");
+            d.comment("healthy-connect");
+            d.connect(&ConnSpec::plain());
+            settle(&mut d);
+            format!("script=assigned-client-id len={len}")
         }
         Script::InboundQos2Overflow { n } => {
             d.connect(&ConnSpec::plain());
